@@ -530,6 +530,15 @@ def fork_jobs(fn, items, nproc, timeout, seed=0):
     return results
 
 
+def _strict_jobs(fn, items, seed=0):
+    out = []
+    for r in fork_jobs(fn, items, core.NPROC, 300, seed=seed):
+        if r[0] != "ok":
+            raise core.HarnessError("%s" % (r[1:],))
+        out.append(r[1])
+    return out
+
+
 def real_job(item):
     """The unpatched Parser.parse with the real multiprocessing.Pool of size k."""
     chain, k = item
@@ -574,7 +583,7 @@ def run(ctx):
     global MEMO
     S = setup()
     t0 = time.time()
-    n_self = vpool.selftest()
+    n_self = vpool.selftest(functools.partial(_strict_jobs, seed=ctx.seed))
     ctx.log("vpool selftest: %d executions agree with multiprocessing.Pool semantics (%.0f s)" % (n_self, time.time() - t0))
     lists, rule = task_lists(ctx.tier)
     lists = [tuple(l) for l in lists]
